@@ -1,6 +1,7 @@
 """C09 — sweep and second-level HTLC signatures only move funds back to the node."""
 import json, os
 import lib
+import gen_rustfn
 
 MANIFEST = dict(
     text="Coq theorems over an executable model of validate_sweep / validate_{delayed,counterparty_htlc,justice}_sweep, "
@@ -75,7 +76,19 @@ def _first_input_class(cases):
 
 def run(res):
     quick = res.tier == "quick"
-    lib.proof_stage(res, "C09.v", "Props.C09", PINNED)
+    # the translator regenerates Gen/TxUtilGen.v from /repo's transaction_utils.rs under the build lock, right before
+    # the theorem that relates it to the model's feerate estimate is re-checked
+    tx_report = {}
+
+    def regen():
+        tx_report.update(gen_rustfn.generate_txutil(lib.REPO))
+    try:
+        lib.proof_stage(res, "C09.v", "Props.C09", PINNED + ["C09_feerate_estimate_is_source"], pre=regen)
+    except gen_rustfn.GenError as e:
+        res.violation("the translator cannot read estimate_feerate_per_kw (a construct outside its fragment): %s" % e,
+                      {"translator": "tools/gen_rustfn.py", "source": "vls-core/src/util/transaction_utils.rs",
+                       "error": str(e), "theorem": "C09_feerate_estimate_is_source"}, has_input=False)
+    res.coverage["translated_from_source"] = tx_report
     cov = res.coverage
     profiles = ["debug"] if quick else ["debug", "release"]
     n = dict(sweepval=2400, sweepchan=700, htlcval=2000, htlcchan=700, sweephandler=1200, htlchandler=1200) if quick else \
